@@ -66,6 +66,10 @@ def make_env(P, servertype, variant=None):
 
         @property
         def nonce(self):
+            # (an attribute read carries no argument: the request's TOKN annotation says which call it belongs to)
+            tok = bytes((P.callcontext.current_context.annotations or {}).get("TOKN", b"")).decode()
+            if tok:
+                slog.hit(tok)
             with slog.lock:
                 slog.nonce += 1
                 slog.handled += 1
@@ -345,12 +349,12 @@ def run_history(fx, slog, rl, rec, r, retries, ncalls, script, sername, hh):
         return
     # ---- exactly-once accounting at quiescence
     want_handled = sum(rl.forwarded.get(t, 0) for t, k in tokens if k != "attr")
-    settled = fx.wait_until(lambda: all(slog.exec.get(t, 0) >= min(1, rl.forwarded.get(t, 0)) for t, k in tokens if k not in ("attr", "stream", "onewaybad")), 5.0)
+    settled = fx.wait_until(lambda: all(slog.exec.get(t, 0) >= min(1, rl.forwarded.get(t, 0)) for t, k in tokens if k not in ("stream", "onewaybad")), 5.0)
     time.sleep(0.02)
     for tok, kind in tokens:
         fw, rc = rl.forwarded.get(tok, 0), rl.received.get(tok, 0)
         ex = slog.exec.get(tok, 0)
-        if kind in ("attr", "onewaybad"):
+        if kind in ("onewaybad",):
             continue
         if kind == "stream":
             if ex > fw:
